@@ -541,6 +541,16 @@ def draw_graphs(tier, seed, ev):
     for i in pick:
         g = farm.draw_schemas(common.sub_seed(seed, PROP, "shape", i), 1, strategy=c08gen.shape_graphs(shapes[i]))
         graphs.append(g[0])
+    # every expression shape once more with an operand that is also a subtype of a sibling of the carrying entity (thorough: two
+    # draws per shape, quick: one draw for a third of the shapes)
+    if tier == "quick":
+        rnd2 = random.Random(common.sub_seed(seed, PROP, "uncle-pick"))
+        upick = [(i, 0) for i in rnd2.sample(range(len(shapes)), len(shapes) // 3)]
+    else:
+        upick = [(i, r) for i in range(len(shapes)) for r in (0, 1)]
+    for i, r in upick:
+        g = farm.draw_schemas(common.sub_seed(seed, PROP, "uncle", i, r), 1, strategy=c08gen.shape_graphs(shapes[i], mode="uncle"))
+        graphs.append(g[0])
     if tier != "quick":
         ev.extra["expression_shapes_enumerated"] = len(shapes)
     # the enumerated two-root family (c08gen.family_graph): every member in the thorough tier, a seeded sample in the quick tier
